@@ -168,7 +168,19 @@ func faultCase(w *W, idx int, async bool) {
 		if withWriters {
 			// transactions commit while the (failing) snapshot is in progress
 			budget := 2
+			nested := si%5 == 0
 			hook := func(point string, c *column.Collection, chunk uint32) {
+				if c == h.wd.P && nested && point == "snapshot.recorderOpen" {
+					// a second Snapshot while this one is running: it fails ("another one in progress"),
+					// which makes it a failed snapshot too - it must not leave anything behind either
+					nested = false
+					var sink bytes.Buffer
+					if err := h.wd.P.Snapshot(&sink); err == nil {
+						w.Stat("nested_snapshots_that_succeeded", 1)
+					} else {
+						w.Stat("nested_snapshots_refused", 1)
+					}
+				}
 				if c == h.wd.P && budget > 0 && (point == "snapshot.recorderOpen" || point == "snapshot.beforeRecorderClose") {
 					budget--
 					h.txnQuiet()
